@@ -77,6 +77,23 @@ func checkC09(ctx *Ctx) {
 			ops = append(ops, w.Ops[:len(w.Ops)/2]...)
 			ops = append(ops, rw, rw) // twice in a row
 			ops = append(ops, w.Ops[len(w.Ops)/2:]...)
+		case 2:
+			// compact a non-empty dataset, empty it completely, compact again (the second preamble must be empty)
+			ops = append(ops, w.Ops[:len(w.Ops)/2]...)
+			ops = append(ops, rw)
+			if r.Intn(2) == 0 {
+				ops = append(ops, pOp{Caller: "emb", Argv: []string{"FLUSHALL"}})
+			} else {
+				for _, db := range pDBs {
+					db := db
+					ops = append(ops, pOp{Caller: "emb", SelDB: &db}, pOp{Caller: "emb", Argv: []string{"DEL", "k1", "k2", "k3", "k4", "k5"}})
+				}
+			}
+			ops = append(ops, rw)
+			if r.Intn(2) == 0 {
+				ops = append(ops, w.Ops[len(w.Ops)/2:]...)
+				ops = append(ops, rw)
+			}
 		default:
 			for _, o := range w.Ops {
 				ops = append(ops, o)
